@@ -86,6 +86,14 @@ func tableQueries(c *ctx, t *tableCase, which string) []string {
 			}
 		}
 		qs = append(qs, "sl::0", fmt.Sprintf("sl::%d", ^uint64(0)), "sl:"+hxs("\xff\xff")+":5")
+		if len(t.logs) > 0 {
+			// the empty name with an ordinary update index: only keys at or behind ("", u) follow
+			u := t.logs[c.rng.Intn(len(t.logs))].UpdateIndex
+			qs = append(qs, fmt.Sprintf("sl::%d", u), fmt.Sprintf("sl:00:%d", u))
+			if which == "c02" {
+				qs = append(qs, fmt.Sprintf("rl::%d", u))
+			}
+		}
 		for _, i := range pick(len(t.logs), maxk) {
 			l := t.logs[i]
 			for _, u := range []uint64{0, l.UpdateIndex, l.UpdateIndex + 1, l.UpdateIndex - 1, ^uint64(0)} {
@@ -169,7 +177,55 @@ func indexEntryCases() []tableCase {
 	return append(out, l)
 }
 
+// one object id in very many ref blocks: position lists longer than any small constant, longer
+// than the block size has bytes (the list cannot fit: positions dropped), and in between
+func popularCases(c *ctx) []tableCase {
+	var out []tableCase
+	for k, sh := range []struct {
+		bs, n, every int
+	}{{100 + c.rng.Intn(28), 420, 1}, {256, 520, 1}, {180 + c.rng.Intn(40), 450, 2}, {300, 700, 3}} {
+		var t tableCase
+		t.cfg = tcfg{BlockSize: uint32(sh.bs), SHA256: k == 3, Restart: 1 + c.rng.Intn(4)}
+		t.min, t.max = 1, 3
+		hs := t.cfg.hashSize()
+		pop := make([]byte, hs)
+		c.rng.Read(pop)
+		for i := 0; i < sh.n; i++ {
+			r := reftable.RefRecord{RefName: fmt.Sprintf("p%04d", i), UpdateIndex: uint64(1 + i%3)}
+			h := make([]byte, hs)
+			c.rng.Read(h)
+			if i%sh.every == 0 {
+				h = pop
+			}
+			if i%7 == 3 {
+				r.Value, r.TargetValue = h, pop
+			} else {
+				r.Value = h
+			}
+			t.refs = append(t.refs, r)
+		}
+		out = append(out, t)
+	}
+	return out
+}
+
 func runTables(c *ctx, which string) error {
+	if which == "c01" || which == "c14" || which == "c11" {
+		for _, t := range popularCases(c) {
+			t := t
+			qs := []string{"sr:"}
+			seen := map[string]bool{}
+			for _, r := range t.refs {
+				for _, h := range [][]byte{r.Value, r.TargetValue} {
+					if h != nil && !seen[string(h)] && len(seen) < 3 {
+						seen[string(h)] = true
+						qs = append(qs, "rf:"+hx(h))
+					}
+				}
+			}
+			runTableCase(c, &t, qs, map[string]int{})
+		}
+	}
 	if which == "c01" || which == "c14" {
 		runBwCap(c)
 		for _, t := range indexEntryCases() {
